@@ -2,6 +2,7 @@
   C01 — Incremental re-analysis equals analysis from scratch.  Property theorems only.
 -/
 import SplVerif.Model.Table
+import SplVerif.Props.C07
 
 namespace Spl.C01
 
@@ -33,6 +34,103 @@ theorem applyChange_text (d d' : AnalyzedSource) (c : TextChange) (h : d.applyCh
       cases hp : Parse.update d.ast toks tc with
       | error e => simp [hp] at h
       | ok ast => simp [hp] at h; subst h; rfl
+
+theorem splitAtByte_spec : ∀ (t : List Char) (n : Nat) (a b : List Char),
+    splitAtByte t n = some (a, b) → t = a ++ b ∧ utf8Len a = n
+  | r, 0, a, b, h => by
+    simp [splitAtByte] at h
+    obtain ⟨h1, h2⟩ := h
+    subst h1 h2
+    simp
+  | [], n + 1, a, b, h => by simp [splitAtByte] at h
+  | c :: cs, n + 1, a, b, h => by
+    rw [splitAtByte] at h
+    split at h
+    · rename_i hle
+      cases hs : splitAtByte cs (n + 1 - c.utf8Size) with
+      | none => simp [hs] at h
+      | some r =>
+        obtain ⟨a', b'⟩ := r
+        simp only [hs, Option.map, Option.some.injEq, Prod.mk.injEq] at h
+        obtain ⟨h1, h2⟩ := h
+        subst h1 h2
+        obtain ⟨e1, e2⟩ := splitAtByte_spec cs _ a' b' hs
+        exact ⟨by rw [e1]; rfl, by simp only [utf8Len_cons]; omega⟩
+    · simp at h
+
+/-- `replace_range(lo..hi, ins)` succeeds exactly on a decomposition of the text. -/
+theorem replaceRange_spec (t : List Char) (lo hi : Nat) (ins t' : List Char)
+    (h : replaceRange t lo hi ins = some t') :
+    ∃ pre mid post, t = pre ++ mid ++ post ∧ t' = pre ++ ins ++ post ∧
+      lo = utf8Len pre ∧ hi = utf8Len pre + utf8Len mid := by
+  unfold replaceRange at h
+  split at h
+  · simp at h
+  · rename_i hle
+    cases h1 : splitAtByte t lo with
+    | none => simp [h1] at h
+    | some r1 =>
+      obtain ⟨pre, rest⟩ := r1
+      simp only [h1] at h
+      cases h2 : splitAtByte rest (hi - lo) with
+      | none => simp [h2] at h
+      | some r2 =>
+        obtain ⟨mid, post⟩ := r2
+        simp only [h2, Option.some.injEq] at h
+        obtain ⟨e1, e2⟩ := splitAtByte_spec t lo pre rest h1
+        obtain ⟨e3, e4⟩ := splitAtByte_spec rest (hi - lo) mid post h2
+        refine ⟨pre, mid, post, by rw [e1, e3, List.append_assoc], h.symm, e2.symm, by omega⟩
+
+/-- **C01, token layer (unconditional).**  One incremental step keeps "the tokens are the fresh
+    tokenisation of the text": whatever the change, if the step does not panic, the new token
+    sequence is `lex` of the new text (C07.update_eq_lex). -/
+theorem applyChange_tokens (d d' : AnalyzedSource) (c : TextChange)
+    (hinv : lex d.text = .ok d.tokens) (h : d.applyChange c = .ok d') :
+    lex d'.text = .ok d'.tokens := by
+  unfold AnalyzedSource.applyChange at h
+  cases hr : replaceRange d.text c.lo c.hi c.text with
+  | none => simp [hr] at h
+  | some t =>
+    simp only [hr] at h
+    obtain ⟨pre, mid, post, e1, e2, e3, e4⟩ := replaceRange_spec _ _ _ _ _ hr
+    rw [e1] at hinv
+    obtain ⟨new, ch, hu, hl⟩ := C07.update_eq_lex pre mid c.text post d.tokens hinv
+    rw [e2, e3, e4] at h
+    rw [hu] at h
+    simp only at h
+    cases hp : Parse.update d.ast new ch with
+    | error e => simp [hp] at h
+    | ok ast =>
+      simp only [hp, Except.ok.injEq] at h
+      subst h
+      exact hl
+
+/-- … and over any batch of changes: after `update`'s incremental fold the tokens are the fresh
+    tokenisation of the final text.  The lexer layer of `update` never panics (`C07`); only the
+    tree layer can (KF-C02). -/
+theorem go_tokens (d d1 : AnalyzedSource) (cs : List TextChange)
+    (hinv : lex d.text = .ok d.tokens) (hgo : AnalyzedSource.update.go d cs = .ok d1) :
+    lex d1.text = .ok d1.tokens := by
+  induction cs generalizing d with
+  | nil =>
+    simp only [AnalyzedSource.update.go, Except.ok.injEq] at hgo
+    subst hgo; exact hinv
+  | cons c cs ih =>
+    simp only [AnalyzedSource.update.go] at hgo
+    cases ha : d.applyChange c with
+    | error e => simp [ha] at hgo
+    | ok d' =>
+      simp only [ha] at hgo
+      exact ih d' (applyChange_tokens d d' c hinv ha) hgo
+
+/-- With the token layer proved, the whole of C01 reduces to the tree layer: if the incremental
+    tree equals the fresh parse, `update` returns exactly `AnalyzedSource::new` of the final text. -/
+theorem update_eq_new_of_tree (d d1 : AnalyzedSource) (cs : List TextChange)
+    (hinv : lex d.text = .ok d.tokens)
+    (hgo : AnalyzedSource.update.go d cs = .ok d1)
+    (hparse : Parse.parse d1.tokens = .ok d1.ast) :
+    d.update cs = AnalyzedSource.new d1.text :=
+  update_eq_new_of_tree_eq d d1 cs hgo (go_tokens d d1 cs hinv hgo) hparse
 
 end Spl.C01
 
